@@ -453,3 +453,30 @@ Proof.
                 [(1, s_big); (0, s_Unknown)] Hnd ltac:(vm_compute; reflexivity)).
   discriminate H.
 Qed.
+
+(* ------------------------------------------------------------------ values outside the map's keys *)
+Theorem ref_values_outside_map : forall d ops m0 bs a n l,
+  dict_keys_nodup d -> mk Repaired d = Ok m0 ->
+  let m := fst (apply_ops Repaired m0 ops) in
+  enc_all utf8_enc (map snd m) = Ok bs ->
+  Forall in_int32 l -> len_ok a n (length l) -> (1 <= n)%nat ->
+  let l' := padded l n INTEGER_NDV in
+  run_ref Repaired d ops a n (AInt I32 l)
+  = (MODone m (snd (apply_ops Repaired m0 ops)) (combine (map fst m) bs) m, ODone (VI l') (RI32 l') (VI l'))
+  /\ (forall z, In z l -> In z l')
+  /\ (forall z, lookup z m = None -> ~ In z (map fst m)).
+Proof.
+  intros d ops m0 bs a n l Hnd Hmk m Hbs Hr Hlen Hn l'. split; [|split].
+  - unfold run_ref. f_equal.
+    + apply (refmap_survives_file utf8_enc utf8_dec utf8_dec_enc d ops m0 bs Hnd Hmk Hbs).
+    + apply int_roundtrip_in_range; try assumption. right; reflexivity.
+  - intros z Hz. unfold l', padded. destruct (length l <? n)%nat; [apply in_or_app; left|]; assumption.
+  - intros z Hz. apply lookup_None_iff. assumption.
+Qed.
+
+Example ref_values_outside_map_nonvacuous :
+  exists m rows,
+    run_ref Repaired [(KInt 1, LStr s_one)] [] AVertex 3 (AInt I32 [1; 7; -5])
+    = (MODone m [] rows m, ODone (VI [1; 7; -5]) (RI32 [1; 7; -5]) (VI [1; 7; -5]))
+    /\ lookup 7 m = None /\ lookup (-5) m = None /\ lookup 1 m = Some s_one.
+Proof. do 2 eexists. split; [vm_compute; reflexivity|]. repeat split. Qed.
